@@ -317,6 +317,14 @@ where
                     return Err(TwoPartyError::InvalidCiphertextType);
                 };
 
+                // The initial X3DH message is only ever sent once and is always the first message
+                // of the other party. Long-term pre-keys are not consumed by using them, so a
+                // replayed initial message needs to be rejected explicitly as soon as we've
+                // received something from that party.
+                if y.our_received_secret_key.is_some() {
+                    return Err(TwoPartyError::PreKeyReuse);
+                }
+
                 // If the underlying key manager provides a one-time secret, we use it here.
                 let (y_manager_i, onetime_secret) = match ciphertext.onetime_prekey_id {
                     Some(onetime_prekey_id) => {
